@@ -63,6 +63,8 @@ struct Cfg {
     uint64_t ops = 100;
     bool sync_between = false;
     bool bigiov = false;
+    int section = 0;                 // 0 main, 1 bigiov, 2 trimpast, 3 relrace
+    bool opens = true;               // readers / trimmer open and close their own handles while others read
 };
 static Cfg g_cfg;
 static uint64_t g_seed;
@@ -310,7 +312,9 @@ static std::string cfg_json() {
         .kv("fault_den", g_cfg.fault_den).kv("short_den", g_cfg.short_den).kv("evictors", g_cfg.n_evictors)
         .kv("trimmer", g_cfg.trimmer).kv("phase", g_phase).str();
 }
-static const char* mode_tag() { return g_cfg.bigiov ? "iovcnt>27" : g_cfg.mode == 2 ? "fiemap" : "rangemap"; }
+static const char* mode_tag() {
+    return g_cfg.bigiov ? "iovcnt>27" : g_cfg.section == 2 ? "after-to-end-trim-past-eof" : g_cfg.mode == 2 ? "fiemap" : "rangemap";
+}
 
 struct ReadResult { ssize_t ret; bool checked_ok; };
 
@@ -490,7 +494,7 @@ static uint64_t gen_len(vh::Rng& r) {
     case 7: case 8: case 9: case 10: case 11: case 12: return r.range(513, 16384);
     case 13: case 14: case 15: return r.range(1, std::min<uint64_t>(4 * U, 262144));
     case 16: return r.pick<uint64_t>({4096, U, 2 * U, U + 1, U - 1});
-    case 17: return r.range(1, 2u << 20);
+    case 17: return r.range(1, vh::is_tsan() ? (256u << 10) : (2u << 20));
     case 18: return r.chance(1, 4) ? 0 : r.range(1, 64);
     default: return r.range(1, 65536);
     }
@@ -532,7 +536,7 @@ static void* reader_main(void* arg) {
     vh::Rng r(vh::mix(g_seed, 1000 + g_phase * 1000 + R.id));
     IFile* own[MAXF] = {nullptr, nullptr, nullptr, nullptr};
     int reopen_every = r.pick({1, 4, 16, 1000000, 1000000});
-    bool prefer_shared = r.chance(1, 2);
+    bool prefer_shared = !g_cfg.opens || r.chance(1, 2);
     for (uint64_t op = 0; op < g_cfg.ops; ++op) {
         int f = r.chance(2, 3) ? 0 : r.below(g_cfg.nfiles);
         auto& F = g_files[f];
@@ -589,7 +593,7 @@ static void* trimmer_main(void* arg) {
         photon::thread_usleep(r.range(200, 3000));
         int f = r.below(g_cfg.nfiles);
         auto& F = g_files[f];
-        auto file = open_cached(f);
+        auto file = g_cfg.opens ? open_cached(f) : F.shared.load(std::memory_order_acquire);
         if (!file) continue;
         // announce the trim, then wait until no read of this file is in flight; readers do the converse
         F.trim_active.store(1, std::memory_order_seq_cst);
@@ -611,7 +615,7 @@ static void* trimmer_main(void* arg) {
             c_trims.add();
         } else c_trim_skipped.add();
         F.trim_active.store(0, std::memory_order_seq_cst);
-        delete file;
+        if (g_cfg.opens) delete file;
     }
     return nullptr;
 }
@@ -633,7 +637,9 @@ static void create_fs(vh::Rng& r) {
     c_phases.add();
     for (int f = 0; f < g_cfg.nfiles; ++f) {
         g_files[f].src_reads_phase.store(0, vh::MO);
-        g_files[f].shared.store(r.chance(2, 3) ? open_cached(f) : nullptr, std::memory_order_release);
+        IFile* h = (!g_cfg.opens || r.chance(2, 3)) ? open_cached(f) : nullptr;
+        if (h && !g_cfg.opens) { char c; h->pread(&c, 1, 0); }       // the store learns the source size before the readers start
+        g_files[f].shared.store(h, std::memory_order_release);
     }
 }
 static void destroy_fs() {
@@ -688,17 +694,21 @@ int main(int argc, char** argv) {
     g_seed = A.xseed();
     vh::Rng r(g_seed);
     auto& C = g_cfg;
-    C.bigiov = A.has("section") ? A.gets("section", "") == "bigiov" : false;
+    {
+        auto sec = A.gets("section", "main");
+        C.section = sec == "bigiov" ? 1 : sec == "trimpast" ? 2 : sec == "relrace" ? 3 : 0;
+        C.bigiov = C.section == 1;
+    }
     // ---- configuration
     C.nv = r.pick({1, 2, 2, 3, 4, 6});
     C.rpv = r.range(2, 6);
     C.nfiles = r.range(1, 3);
-    C.phases = r.pick({2, 2, 3});
+    C.phases = r.pick({2, 2, 2, 3});
     C.unit = r.pick<uint64_t>({4096, 4096, 8192, 16384, 65536, 65536, 262144, 1048576});
     C.mode = r.pick({1, 1, 2, 2, 0});
     C.cap_gb = r.pick<uint64_t>({1, 1, 1, 0});
     C.floor_bytes = r.chance(1, 6) ? (1ull << 50) : 0;
-    C.period_us = r.pick<uint64_t>({5000, 20000, 1000000});
+    C.period_us = r.pick<uint64_t>({20000, 100000, 1000000});
     C.ttl_us = r.pick<uint64_t>({1000, 50000, 10000000});
     C.media_wrap = r.pick({0, 1, 2, 2});
     C.media_sync_den = C.mode == 2 ? r.pick({0, 2, 2, 4, 8}) : r.pick({0, 0, 0, 16});    // fiemap sees an extent only once it is allocated
@@ -716,12 +726,18 @@ int main(int argc, char** argv) {
     // that node's vptr and ASan reports it although the program never touches it (formal UB, not a memory error,
     // and not this property's business). Short TTLs (store teardown/reopen under load) run in the plain and tsan flavors.
     if (vh::is_asan()) C.ttl_us = 100000000;
+    if (vh::is_tsan() && C.unit > 65536) C.unit = r.pick<uint64_t>({4096, 16384, 65536});      // TSan walks the shadow of every copied byte
     if (C.media_sync_den && C.unit >= (256u << 10)) C.media_sync_den = std::max(C.media_sync_den, 8);
-    if (C.bigiov) {
+    if (C.section == 3) C.ttl_us = 1000;           // one store only: the delete_all() artifact needs two
+    if (C.section) {
         C.nv = 1; C.rpv = 1; C.nfiles = 1; C.phases = 1; C.unit = 65536; C.mode = 1; C.cap_gb = 1; C.floor_bytes = 0;
         C.media_wrap = 0; C.media_sync_den = 0; C.src_lat = 0; C.fault_den = C.short_den = 0; C.n_evictors = 0; C.trimmer = false;
         C.prefetch_pct = 0;
     }
+    // TSan flavor: CachedFs::open() re-assigns src_fs_/page_size_/allocator_ of the shared store on every open and
+    // ICacheStore::preadv2 peeks actual_size_ outside mt_ (same-value / monotonic stores, reported; no suppression
+    // exists yet), so there every handle is opened and primed by vCPU 0 before the readers start.
+    C.opens = A.geti("opens", vh::is_tsan() ? 0 : 1);
     C.nv = A.geti("vcpus", C.nv);
     C.rpv = A.geti("readers", C.rpv);
     C.unit = A.geti("unit", C.unit);
@@ -736,7 +752,7 @@ int main(int argc, char** argv) {
     if (C.nv * C.rpv > MAXR) C.rpv = MAXR / C.nv;
     g_nreaders = C.nv * C.rpv;
     // total read budget of one pool instance, shared by the readers
-    uint64_t budget = A.geti("reads", A.thorough() ? 5000 : 1200);
+    uint64_t budget = A.geti("reads", A.thorough() ? 4000 : 1000);
     if (vh::is_tsan()) budget /= 4;
     if (vh::is_asan()) budget /= 2;        // large refill buffers are expensive under ASan (mmap per allocation, quarantine)
     budget /= A.shape_div();
@@ -758,8 +774,9 @@ int main(int argc, char** argv) {
         case 5: s = 4096 * r.range(65, 700) + r.pick<uint64_t>({0, 1, 511, 4095}); break;
         default: s = r.range(100000, 3u << 20); break;
         }
-        s = std::min<uint64_t>(s, 3u << 20);
+        s = std::min<uint64_t>(s, vh::is_tsan() ? (1u << 20) : (3u << 20));
         if (C.bigiov) s = (1u << 20) + 777;
+        if (C.section >= 2) s = 3 * 4096 + 1000;
         F.size = s;
         F.content.resize(s);
         vh::Rng cr(vh::mix(g_seed, 77 + f));
@@ -782,23 +799,94 @@ int main(int argc, char** argv) {
     if (system(("mkdir -p '" + scratch + "/media'").c_str())) vh::machinery_failure("cannot create the scratch media directory");
     g_media_root = scratch + "/media";
 
-    vh::config("section", C.bigiov ? "bigiov" : "main");
+    vh::config("section", A.gets("section", "main"));
     vh::config("vcpus", C.nv); vh::config("readers_per_vcpu", C.rpv); vh::config("files", C.nfiles); vh::config("phases", C.phases);
     vh::config("refill_unit", C.unit); vh::config("hole_tracking", C.mode == 2 ? "fiemap" : C.mode == 1 ? "rangemap" : "probe");
     vh::config("capacity_gb", C.cap_gb); vh::config("disk_floor", C.floor_bytes ? "huge" : "0"); vh::config("period_us", C.period_us);
     vh::config("store_ttl_us", C.ttl_us); vh::config("media_wrap", C.media_wrap); vh::config("media_sync_den", C.media_sync_den);
     vh::config("src_latency", C.src_lat); vh::config("fault_den", C.fault_den); vh::config("short_den", C.short_den);
     vh::config("evictors", C.n_evictors); vh::config("trimmer", C.trimmer); vh::config("prefetch_pct", C.prefetch_pct);
-    vh::config("reads_per_reader_per_phase", C.ops);
+    vh::config("reads_per_reader_per_phase", C.ops); vh::config("concurrent_opens", C.opens);
     { std::string s; for (int f = 0; f < C.nfiles; ++f) s += std::to_string(g_files[f].size) + " "; vh::config("file_sizes", s); }
 
     using namespace photon::verif;
     vh::arm_stalls(r, {P_CACHE_EVICT, P_CACHE_REFILL, P_RANGELOCK_WAIT, P_RWLOCK_UNLOCK, P_MUTEX_UNLOCK});
-    vh::start_supervisor(on_stuck, 30000);
+    vh::start_supervisor(on_stuck, vh::is_asan() || vh::is_tsan() ? 120000 : 60000);     // the machine is shared: generous
 
+    vh::Rng pr(vh::mix(g_seed, 4242));
+    if (C.section == 2) {
+        // to-end trim (ICachedFile::evict(offset, -1), the len == -1 branch of CachedFile::fallocate) at a 4 KiB aligned
+        // offset at/after the end of the file, no read in flight; then the directory is reused by a new pool instance.
+        C.mode = A.geti("mode", 1 + (int)(A.exec % 2));
+        g_nreaders = 1; g_readers[0].id = 0;
+        vh::VCpus vc1;
+        vc1.run(1, nullptr, [&](int) {
+            auto& R = g_readers[0];
+            R.th.store(photon::CURRENT, std::memory_order_release);
+            auto& F = g_files[0];
+            C.opens = true;
+            g_phase = 0; create_fs(pr);
+            { auto h = F.shared.exchange(nullptr); delete h; }
+            auto file = open_cached(0);
+            if (!file) vh::machinery_failure("open failed");
+            for (uint64_t off = 0; off < F.size; off += 4096) do_read(R, r, file, 0, off, {4096}, 0);
+            uint64_t past = (F.size + 4095) / 4096 * 4096 + 4096 * r.below(3);
+            static_cast<ICachedFile*>(file)->evict(past, (size_t)-1);
+            c_trims.add(); c_trunc_trims.add();
+            delete file;
+            destroy_fs();
+            g_phase = 1; create_fs(pr);
+            { auto h = F.shared.exchange(nullptr); delete h; }
+            file = open_cached(0);
+            if (!file) vh::machinery_failure("open failed");
+            for (int i = 0; i < 200; ++i) {
+                uint64_t off = r.chance(1, 2) ? F.size - r.below(5000) : gen_offset(r, F);
+                int api = 0;
+                auto split = gen_split(r, r.range(1, 9000), api);
+                do_read(R, r, file, 0, off, split, api);
+            }
+            delete file;
+            destroy_fs();
+            R.th.store(nullptr, std::memory_order_release);
+        });
+        vh::set_sig("trimpast|m" + std::to_string(C.mode), false);
+        if (own_scratch) rm_rf(scratch);
+        return vh::finish();
+    }
+    if (C.section == 3) {
+        // ICacheStore::release() hands the store back to the pool's ObjectCache (store_release) while it still holds the
+        // store's own spinlock; the OS-level stall point inside ObjectCacheBase::ref_release widens that window beyond
+        // the store TTL (1 ms, as in the repository's own reuse tests) so the ObjectCache timer on the pool's vCPU can run.
+        static std::atomic<bool> armed{false};
+        photon::verif::g_hooks.point = [](uint32_t id) {
+            if (id == photon::verif::P_OBJCACHE_RELEASE && armed.load()) { struct timespec ts = {0, 20 * 1000 * 1000}; nanosleep(&ts, nullptr); }
+        };
+        vh::VCpus vc2;
+        vc2.run(2, nullptr, [&](int v) {
+            static std::atomic<int> stage{0};
+            if (v == 0) { g_phase = 0; C.opens = true; create_fs(pr); { auto h = g_files[0].shared.exchange(nullptr); delete h; } stage.store(1); while (stage.load() < 2) photon::thread_usleep(500); destroy_fs(); }
+            else {
+                while (stage.load() < 1) photon::thread_usleep(500);
+                for (int i = 0; i < 3; ++i) {
+                    auto file = open_cached(0);
+                    if (!file) continue;
+                    char b[64];
+                    file->pread(b, sizeof(b), 0);
+                    armed.store(true);
+                    delete file;
+                    armed.store(false);
+                    vh::event(); vh::progress();
+                    photon::thread_usleep(5000);
+                }
+                stage.store(2);
+            }
+        });
+        vh::set_sig("relrace", false);
+        if (own_scratch) rm_rf(scratch);
+        return vh::finish();
+    }
     Bar bar;
     bar.n = C.nv;
-    vh::Rng pr(vh::mix(g_seed, 4242));
     vh::VCpus vc;
     vc.run(C.nv, nullptr, [&](int v) {
         for (int ph = 0; ph < C.phases; ++ph) {
